@@ -91,7 +91,11 @@ PROP = dict(
          "pool); non-trivial = bsearch: len >= 2; curves: at least 3 points, part_count >= 2, an accepted order and matching lengths",
     class_names={0: "Ok", 2: "error (InvalidOrder)", 3: "panic", 4: "hang", 10: "bsearch"},
     trusted_base=[
-        "axioms: none (every theorem of Properties/C09.v is closed under the global context)",
+        "axioms: none, except for C09_f64_add_exact / C09_f64_add_exact_on_integers and the three premise-free schedule theorems "
+        "(C09_hilbert_sched_indep_proved, C09_hilbert_sched_is_sequential_proved, C09_histogram_sched_indep_proved), which go through "
+        "Flocq and therefore use the standard axioms of Coq's classical real numbers: ClassicalDedekindReals.sig_forall_dec, "
+        "ClassicalDedekindReals.sig_not_dec, Classical_Prop.classic, FunctionalExtensionality.functional_extensionality_dep; every "
+        "other theorem of Properties/C09.v is closed under the global context",
         "slice::binary_search_by = the loop transcribed in coq/Lib/Sorting.v (from rust-src of 1.97.0-nightly; validated against the "
         "linked std on every run by the bsearch stream, unsorted arrays included)",
         "the per-point Hilbert indices (the encoders are C08's subject) and ZCurve's bounding box, rotated coordinates and final permutation "
@@ -104,8 +108,8 @@ PROP = dict(
     assumptions=[
         "HilbertCurve: points, weights and part ids have the same length; part_count >= 1; weights finite and non-negative",
         "ZCurve: points and part ids have the same length; part_count >= 1; order <= max_order (64 in 2-D, 42 in 3-D)",
-        "C09_hilbert_sched_indep (for C06) has the premise f64_add_exact_on_integers (f64 + exact on non-negative integers with sum <= 2^53, "
-        "DESIGN §6's named assumption; not derived from SpecFloat) and covers integer-valued non-negative weights with total <= 2^53",
+        "schedule independence (C09_hilbert_sched_indep_proved, for C06) covers integer-valued non-negative weights with total <= 2^53; "
+        "its former premise f64_add_exact_on_integers is now proved (Proofs/F64AddExact.v, Flocq); dyadic fractional weights are not covered",
         "geometric clause (the Z-order cell of a point contains the point): claimed for points that the top-level box contains, level by "
         "level while the midlines are eps-effective (c - eps < c < c + eps; void from magnitude 32 on, where HEAD's absolute tolerance "
         "10*EPSILON of BoundingBox::contains is below half an ulp)",
